@@ -109,18 +109,9 @@ class CorrelationRemover(TransformerMixin, BaseEstimator):
     def fit(self, X, y=None):
         """Learn the projection required to make the dataset uncorrelated with sensitive columns."""  # noqa: E501
 
-        first_call = not hasattr(self, "_n_features_in_")
-
         self._check_sensitive_features_in_X(X)
         self._create_lookup(X)
         X = validate_data(self, X)
-
-        if not first_call:
-            if self._n_features_in_ != X.shape[1]:
-                raise ValueError(
-                    "X has %d features, but %s is expecting %d features as input"
-                    % (X.shape[1], self.__class__.__name__, self._n_features_in_)
-                )
 
         X_use, X_sensitive = self._split_X(X)
 
